@@ -87,7 +87,7 @@ class FnContract:
         self.loops = {}       # idx -> {"head": str, "lines": [(text, src_line)]}
         self.inserts = []     # {"where": "before"/"after", "pat": str, "lines": [...], "src_line": n}
         self.canary = True
-        self.replace_sig = None
+        self.begin = []       # ghost text placed at the very start of the body
 
 
 def parse_contracts(path):
@@ -115,11 +115,11 @@ def parse_contracts(path):
                 sect = cur.header
                 continue
             if st.startswith("@loop "):
-                m = re.match(r'@loop\s+(\d+)\s+"(.*)"\s*$', st)
+                m = re.match(r'@loop\s+(\d+)\s+"(.*)"\s*(?:iter\s+(\w+))?\s*$', st)
                 if not m or cur is None:
                     raise Undecided("bad-contract-file", f"{path}:{ln}: {st}")
                 idx = int(m.group(1))
-                cur.loops[idx] = {"head": m.group(2), "lines": [], "src_line": ln}
+                cur.loops[idx] = {"head": m.group(2), "lines": [], "src_line": ln, "iter": m.group(3)}
                 sect = cur.loops[idx]["lines"]
                 continue
             if st.startswith("@before ") or st.startswith("@after "):
@@ -129,6 +129,11 @@ def parse_contracts(path):
                 ins = {"where": m.group(1), "pat": m.group(2), "lines": [], "src_line": ln}
                 cur.inserts.append(ins)
                 sect = ins["lines"]
+                continue
+            if st == "@begin":
+                if cur is None:
+                    raise Undecided("bad-contract-file", f"{path}:{ln}: {st}")
+                sect = cur.begin
                 continue
             if st.startswith("@nocanary"):
                 cur.canary = False
@@ -296,7 +301,24 @@ def splice_item(item, contracts, unit_name, used, canaries):
         if ob < 0 or text[ob + 1:m.start()].strip() != "":
             raise Undecided("lost-anchor", f"{q}: cannot place loop #{idx} invariant")
         blk = _block(f"{unit_name}|{q}|loop|{idx}", c.loops[idx]["lines"])
-        text = text[:ob] + "\n" + blk + "{\n" + text[m.end():]
+        head_ins = ""
+        if c.loops[idx].get("iter"):
+            # ghost name for the loop's iterator:  `for PAT in EXPR`  ->  `for PAT in it: EXPR`
+            hs = None
+            for mm in re.finditer(r"(?:^|\n)[ \t]*(?:'\w+:\s*)?for\s", text[:ob]):
+                hs = mm
+            if hs is None:
+                raise Undecided("lost-anchor", f"{q}: cannot find header of loop #{idx}")
+            ip = text.find(" in ", hs.end(), ob)
+            if ip < 0:
+                raise Undecided("lost-anchor", f"{q}: cannot find `in` of loop #{idx}")
+            text = text[:ip + 4] + c.loops[idx]["iter"] + ": " + text[ip + 4:]
+            shift = len(c.loops[idx]["iter"]) + 2
+            ob += shift
+            m_end2 = m.end() + shift
+        else:
+            m_end2 = m.end()
+        text = text[:ob] + "\n" + blk + "{\n" + text[m_end2:]
     for q, c in contracts.items():
         if q in fninfo:
             for idx, spec in c.loops.items():
@@ -314,8 +336,9 @@ def splice_item(item, contracts, unit_name, used, canaries):
         ob = text.rfind("{", 0, m.start())
         if ob < 0 or text[ob + 1:m.start()].strip() != "":
             raise Undecided("lost-anchor", f"{q}: cannot find body brace")
-        if c and c.header:
-            blk = _block(f"{unit_name}|{q}|header|0", c.header)
+        if c and (c.header or c.begin):
+            blk = _block(f"{unit_name}|{q}|header|0", c.header) if c.header else ""
+            bblk = _block(f"{unit_name}|{q}|begin|0", c.begin) if c.begin else ""
             f = fninfo.get(q, {})
             reqs = [cl for cl in clauses_of(c.header) if cl["kind"] == "requires"]
             can = ""
@@ -338,7 +361,7 @@ def splice_item(item, contracts, unit_name, used, canaries):
                     m_end = m.end()
             else:
                 m_end = m.end()
-            new = text[:ob] + "\n" + blk + "{\n"
+            new = text[:ob] + "\n" + blk + "{\n" + bblk
             text = new + text[m_end:]
             pos = len(new)
             used.add(q)
@@ -360,7 +383,7 @@ def splice_item(item, contracts, unit_name, used, canaries):
             inner = inner[:-1].rstrip()
         inner = re.sub(r"\s*\n\s*", " ", inner)
         text = text[:op] + f"({m.group(1)}: {inner})" + text[cl + 1:]
-    if "__vx_" in text:
+    if "__vx_body!" in text or "__vx_loop!" in text or "__vx_ret_" in text:
         raise Undecided("splice-failed", "marker left in " + item["selector"])
     return text
 
